@@ -56,8 +56,25 @@ void YmFmOPN2::reset()
     chip_r->reset();
 }
 
+//! Longest backlog of register writes: at one write per native sample that is about 8.5 ms of delay.
+//! (The ring itself holds c_queueSize entries: it must never be overrun.)
+static const long c_queueLimit = 450;
+
 void YmFmOPN2::writeReg(uint32_t port, uint16_t addr, uint8_t data)
 {
+    if(m_queueCount >= c_queueLimit)
+    {
+        // Too many writes are waiting: hand the oldest one to the chip right now
+        ymfm::ym2612 *chip_r = reinterpret_cast<ymfm::ym2612*>(m_chip);
+        const Reg &front = m_queue[m_tailPos++];
+        if(m_tailPos >= c_queueSize)
+            m_tailPos = 0;
+        --m_queueCount;
+        const uint32_t a = 0 + 2 * ((front.addr >> 8) & 3);
+        chip_r->write(a, front.addr & 0xff);
+        chip_r->write(a + 1, front.data);
+    }
+
     Reg &back = m_queue[m_headPos++];
     back.addr = port > 0 ? addr | 0x100 : addr;
     back.data = data;
